@@ -464,4 +464,34 @@ theorem C06_led_partitions (s : ClientState) (t : Bytes) (ps : List Nat) (h : as
       exact ⟨b, br, (mem_range_zip ps j b).mp hm, hb, hf.2⟩
   · rintro ⟨b, br, hp, hb, hh⟩
     exact ⟨(i, b), (mem_range_zip ps i b).mpr hp, by simp [hb, hh]⟩
+/-! ### the partition count follows the latest response, also downwards -/
+
+theorem resize_length (ps : List Nat) (m : Nat) : (resize ps m).length = m := by
+  unfold resize
+  split
+  · simp; omega
+  · simp; omega
+
+/-- **the partition count is the latest one**: after a load, every listed topic has exactly as many partitions as the response
+    lists for it - whether the topic is new to the client, grew, or *shrank* (re-created with fewer partitions); partitions
+    beyond the new count are gone from the view, with their leaders -/
+theorem C06_partition_count (idx : List (Int × Nat)) (tms : List TopicMd) (ts ts' : List (Bytes × List Nat))
+    (h : ClientState.updateMetadata.go idx tms ts = some ts') (hnd : (tms.map (·.topic)).Nodup) (tm : TopicMd) (hmem : tm ∈ tms) :
+    ∃ ps', assocGet ts' tm.topic = some ps' ∧ ps'.length = tm.partitions.length := by
+  have hu := C06_topics idx tms ts ts' h hnd tm hmem
+  cases hold : assocGet ts tm.topic with
+  | none =>
+    rw [hold] at hu
+    unfold topicUpdate at hu
+    simp only [] at hu
+    obtain ⟨ps', hs⟩ := syncParts_total idx tm.partitions (List.replicate tm.partitions.length UNKNOWN)
+    refine ⟨ps', hu.trans hs, ?_⟩
+    rw [syncParts_length idx _ _ _ hs]; simp
+  | some ps =>
+    rw [hold] at hu
+    unfold topicUpdate at hu
+    simp only [] at hu
+    obtain ⟨ps', hs⟩ := syncParts_total idx tm.partitions (resize ps tm.partitions.length)
+    refine ⟨ps', hu.trans hs, ?_⟩
+    rw [syncParts_length idx _ _ _ hs]; exact resize_length ps _
 end Kafka.Props.C06
